@@ -148,7 +148,10 @@ func InterceptServer(svcDesc *grpc.ServiceDesc, unaryInt grpc.UnaryServerInterce
 				ClientStreams: sd.ClientStreams,
 				ServerStreams: sd.ServerStreams,
 				Handler: func(srv interface{}, stream grpc.ServerStream) error {
-					return streamInt(srv, stream, info, origHandler)
+					// per-RPC information: an interceptor may modify what
+					// it is given, which must not reach other calls
+					callInfo := *info
+					return streamInt(srv, stream, &callInfo, origHandler)
 				},
 			}
 		}
